@@ -61,7 +61,11 @@ RULE_ADDED = (
               'Round 18: PINs with characters between Z and a in ASCII. '
               ' '
               'Round 20: changepin with the new PIN also given as the current one (30% of the o'
-              'ption cells), with or without -u. ')
+              'ption cells), with or without -u. '
+              ' '
+              "Round 20 (sweep): the cells in which everything but the device's onboarding stat"
+              'e invites the operation are run once more per early exchange (0..3) with that an'
+              'swer arriving late. ')
 RULE = RULE + " " + RULE_ADDED.strip()
 ASSUMPTIONS = [
     "simulated devices (pv/simdev) trusted; operator input is scripted, an exhausted script "
@@ -229,13 +233,29 @@ def cells(spec):
                                                 (c[0] != "onboard" and c[3]))
         keep = [c for c in out if promising(c) and (c[0] != "onboard" or rng.random() < 0.6)]
         rest = [c for c in out if not promising(c)]
+        # ... and the cells in which everything but the device's onboarding state invites
+        # the operation (Ledger in the bootloader, good echo, an acceptable PIN given as an
+        # option, "yes"): each is run once more per early exchange with that exchange's
+        # answer arriving late (see run_cell)
+        keep += [c for c in rest if leave_alone_cell(c)]
+        rest = [c for c in rest if not leave_alone_cell(c)]
         out = keep + rng.sample(rest, 2600)
     if spec["tier"] == "thorough":
         out = out * 4       # every cell on four different devices / seeds
     return [c for i, c in enumerate(out) if i % spec["n"] == spec["shard"]]
 
 
-def run_cell(acc, cell, tmpdir, seed):
+def leave_alone_cell(c):
+    return c[1] == "ledger" and c[2] == "boot" and c[4] is True and c[5] == "valid" and \
+        c[6] == "option" and not c[7] and not c[9] and (
+            (c[0] == "onboard" and c[3] and c[8] == "yes") or
+            (c[0] in ("unlock", "changepin") and not c[3]))
+
+
+def run_cell(acc, cell, tmpdir, seed, late_idx=None):
+    if late_idx is None and leave_alone_cell(cell):
+        for k_ in range(4):
+            run_cell(acc, cell, tmpdir, seed, late_idx=k_)
     from ..admstack import AdminEnv, options
     from admin.onboard import do_onboard
     from admin.unlock import do_unlock
@@ -325,15 +345,18 @@ def run_cell(acc, cell, tmpdir, seed):
                     second["served"] = True
                     dev.onboarded = True
             ae.on_prompt = second_operator
-        if plat == "ledger" and rng.random() < 0.25 and (
+        if plat == "ledger" and (rng.random() < 0.25 or late_idx is not None) and (
                 (cmd == "onboard" and onb) or (cmd in ("unlock", "changepin") and not onb)):
             # a device the command must leave alone (onboarded already / not onboarded), one
             # of whose first answers comes later than the host waits for it - and is then
             # what the next read finds on the HID queue: whatever the tool makes of the
             # shifted answers, it is not a licence
             from ..simdev.transport import Fault
-            ae.bus.arm({rng.randrange(0, 4): Fault("late")})
+            ae.bus.arm({rng.randrange(0, 4) if late_idx is None else late_idx: Fault("late")})
             acc.count("cells_on_a_device_to_leave_alone_with_a_late_answer_early_on")
+            if late_idx is not None:
+                acc.count("inviting_cells_on_a_device_to_leave_alone_with_answer_%d_late"
+                          % late_idx)
         swap = {"at": None, "what": None}
         if plat == "ledger" and cmd == "onboard" and zlib.crc32(repr(cell).encode()) % 2 == 1:
             # Ledger onboarding goes on after "disconnect and re-connect the ledger, press
